@@ -20,9 +20,6 @@ class SummaryPolicy(RepoPolicy):
     def iface_target(self, iface, meth, call, frame):
         return Target('opaque', 'iface:%s.%s' % (iface, meth), raises=self.summaries.iface_raises(iface, meth), role='iface')
 
-    def user_role(self, owner, param):
-        return 'plugin'
-
     def summary_target(self, fi, call, frame):
         return Target('opaque', 'repo-summary:' + fi.qualname, raises=self.summaries.may_raise(fi, fi.cls), role='summary')
 
